@@ -213,6 +213,15 @@ class Run:
                 faults.append(o)
                 continue
             if o.verdict == "undecided":
+                # DESIGN 7 step 6: the directed native search is run for undecided obligations as well; a concrete failure
+                # found that way IS a violation (it is a replayed input) - otherwise the obligation stays undecided
+                if o.meta.get("replay"):
+                    status, rec = s.replay(o)
+                    if status == "reproduced":
+                        match = [f for f in kf_open if f.get("obligation") == o.name]
+                        if not (match and s._finding_applies(match[0], o, status, rec)):
+                            violations.append((o, status, rec))
+                            continue
                 undecided.append(o)
                 continue
             # refuted
@@ -274,10 +283,10 @@ class Run:
             except Exception:
                 return False
         # and everything outside the recorded failing region must be proved (residual obligation)
-        r = f.get("residual")
+        r = f.get("residual_prefix")
         if r:
-            ro = [x for x in s.obls if x.name == r]
-            if not ro or ro[0].verdict != "proved":
+            ro = [x for x in s.obls if x.name.startswith(r)]
+            if not ro or any(x.verdict != "proved" for x in ro):
                 return False
         return True
 
